@@ -24,6 +24,7 @@ EXPLANATION = (
     "(WHO) unsafe storage operations occur only in the owning poll/drop bodies and the utils wrappers; (OWN) children are held "
     "by value in owned containers, never behind Rc/Arc/raw pointers/leaks. Decides the typestate protocol, not a schedule "
     "enumeration.")
+EXPLANATION += (" (ZIP/DROP, loops) the destructor's drop loops are left only through the exhaustion of their iterator (an early return at the first slot that needs no dropping would leak the later ones); (UTIL) vec_assume_init reinterprets its argument in place.")
 ASSUMPTIONS = [
     "pin-project's projection is a field access; ManuallyDrop/MaybeUninit behave per core docs",
     "user Drop impls that panic during the combinator's own destructor are out of scope",
